@@ -52,13 +52,28 @@ def run_canaries(ctx):
     import json
     import sys
     here = os.path.dirname(os.path.dirname(os.path.abspath(__file__)))
-    f = os.path.join(here, "canaries", ctx.prop + ".json")
-    if not os.path.exists(f):
+    import glob
+    import random
+    entries = []
+    for f in sorted(glob.glob(os.path.join(here, "canaries", "*.json"))):
+        entries += [c for c in json.load(open(f)) if c.get("prop") == ctx.prop]
+    if not entries:
         return
+    total = len(entries)
+    if not os.environ.get("VERIF_ALL_CANARIES"):
+        # each canary is a whole check run on a scratch copy: the self-test takes a seeded sample (all of them with
+        # VERIF_ALL_CANARIES=1; `tools/mut.py --file canaries/<file>.json` runs a file completely)
+        rnd = random.Random(f"{ctx.seed}|{ctx.prop}")
+        bad = [c for c in entries if c.get("expect", "violation") == "violation"]
+        good = [c for c in entries if c.get("expect", "violation") != "violation"]
+        rnd.shuffle(bad)
+        rnd.shuffle(good)
+        entries = bad[:9] + good[:3]
     sys.path.insert(0, os.path.join(here, "tools"))
     import mut
+    ctx.note(f"thorough self-test: {len(entries)} of {total} canary mutations of this property selected (seed {ctx.seed})")
     n_ok = 0
-    for c in json.load(open(f)):
+    for c in entries:
         env = dict(c.get("env") or {}, VERIF_NO_CANARIES="1")
         res, err = mut.run_canary(c["prop"], c["edits"], "quick", env)
         if err:
